@@ -21,6 +21,8 @@ var (
 	Dot  = Cmp{Mode: "dot"}
 )
 
+var ShapeOnly = Cmp{Mode: "shape"}
+
 func Ulp(k int) Cmp            { return Cmp{Mode: "ulp", Ulps: k} }
 func Tol(rel, abs float64) Cmp { return Cmp{Mode: "tol", Rel: rel, Abs: abs} }
 
@@ -77,6 +79,9 @@ func CompareT(got, exp *ref.T, c Cmp) (kind, msg string) {
 	}
 	if len(got.V) != len(exp.V) {
 		return "wrong-shape", fmt.Sprintf("%d elements, expected %d", len(got.V), len(exp.V))
+	}
+	if c.Mode == "shape" {
+		return "", ""
 	}
 	for i := range exp.V {
 		g, e := got.V[i], exp.V[i]
